@@ -337,7 +337,12 @@ func modSqrtRule(P *Program, R *Report) {
 					if bigMethod(c2) == "Mul" && siteOf(callArgs(c2)[0]) == siteOf(callArgs(call)[1]) {
 						a2 := callArgs(c2)
 						if siteOf(a2[1]) == siteOf(a2[0]) && desc(a2[2]) == d3 && innermostLoopOf(c2.Block()) != nil && innermostLoopOf(call.Block()) != nil && innermostLoopOf(c2.Block()).Header == innermostLoopOf(call.Block()).Header {
-							okProd = true
+							// ... on every path through the loop body (not only in the arm of the first factor)
+							mul := c2
+							q := &MustPass{P: P, NoInterproc: true, Instr: func(_ *ssa.Function, i ssa.Instruction) bool { return i == ssa.Instruction(mul.(*ssa.Call)) }}
+							if r := q.ForAllBody(fn, innermostLoopOf(c2.Block()), AcceptTrue(1), false); r.Holds {
+								okProd = true
+							}
 						}
 					}
 				}
